@@ -24,6 +24,9 @@ CHECKS = {
  "C10": ("exploration", "scenario grid with stuck detector (whole-process quiescence) for every return + differential census (goroutines, socket fds, pipe ids, vt dial log) after all sockets are closed",
    "Scenario grid over 24 protocols (with contexts), six transports, peer present/absent and in-flight activities (parked Recv/Send, outstanding request/survey, redial loop, hanging transport dial, pending redial timer, peers stalling in the SP handshake), with Close issued from one or two goroutines once the census shows the calls parked; every blocked call must return the closed error, Close must return, 12-20 later calls must return at once with closed/unsupported/queued message, closing a context/dialer/listener/pipe must leave siblings working, and afterwards no library goroutine, socket descriptor or pipe id may remain and at most one dial attempt may start after Close. Exploration: Close 'at every point' is sampled through PRNG delays and library yield points, not enumerated.",
    "Trusted: stuck detector (a wait is only judged when every goroutine is parked and stable), goroutine-dump parser, /proc/self/fd. Timers are not observable directly; their absence is inferred from the dial log and the goroutine census.", "3/C10"),
+ "C01": ("exploration", "differential oracle at the API boundary: position-dependent payloads compared byte for byte per connection, sentinel-closed bursts, raw-header reference table",
+   "Every transport x pattern x cooked/raw configuration is connected 1:1 over the real transports and driven with bursts of messages whose sizes sweep every pool class boundary +-9, 0..600 (0..2100 thorough), the 1 MiB default limit and explicit MaxRecvSize limits L (totals L-1 and L must be delivered); each received body must equal the next accepted send of that direction exactly (classified as truncated/padded/merged/shifted/other-message/poison on mismatch), a sentinel proves nothing extra is queued, raw receivers also check the header. Exploration: sizes and byte values are swept densely but not all 2^20 lengths x contents.",
+   "Trusted: the harness payload generator and comparison; only lossless configurations are used (bursts <= 16, blocking sends).", "3/C01"),
 }
 
 NOT_YET = {}
